@@ -3,6 +3,8 @@ from __future__ import annotations
 
 import itertools
 
+import numpy as np
+
 from . import c03core, common, compare, modelgen, optcommon, runner
 
 PID = "C09"
@@ -101,6 +103,23 @@ def run_case(spec):
             info["events"].get("motif:expand_before_binary:concat_dims") or info["events"].get("motif:expand_shape_of") or rng.random() < 0.2:
         variants.append(dict(api="optimize_then_expand_rules", entry="proto"))
     binds = bindings_for(rng, syms)
+    # outputs that depend on a genuinely nondeterministic op (Random*, training Dropout): dtype and shape only — whether
+    # such an op survives optimisation is C03's business (kind=nondeterminism_lost), and ORT draws different numbers
+    # once the graph around the op changes
+    nd_names = set(info.get("nondet_outputs") or []) | optcommon.random_dependent(m)
+    nd_idx = [k for k, go in enumerate(m.graph.output) if go.name in nd_names]
+    if nd_idx:
+        hit("models_with_nondeterministic_outputs")
+
+    def mask_nd(outs):
+        if not nd_idx or outs is None:
+            return outs
+        outs = list(outs)
+        for k in nd_idx:
+            if k < len(outs) and not isinstance(outs[k], list):
+                a = np.asarray(outs[k])
+                outs[k] = np.zeros(a.shape, a.dtype)
+        return outs
     # inputs per binding are drawn once and shared by all variants
     feeds_by_b = []
     for b in binds:
@@ -111,7 +130,7 @@ def run_case(spec):
         outs = []
         for f in fl:
             st, o = runner.ort_run(m, f)
-            outs.append(o if st == "ok" else None)
+            outs.append(mask_nd(o) if st == "ok" else None)
         base.append(outs)
     if not any(o is not None for outs in base for o in outs):
         return {"status": "discarded_unrunnable"}
@@ -149,6 +168,7 @@ def run_case(spec):
                         continue
                     kind, d = "accepts_less", f"optimized model fails where the original runs: {str(o2)[:200]}"
                 else:
+                    o2 = mask_nd(o2)
                     d = compare.compare_outputs(o1, o2, scale=scale)
                     if not d:
                         continue
@@ -158,6 +178,16 @@ def run_case(spec):
                             kind = kw
                     r1, ro1 = runner.ref_run(m, f)
                     r2, ro2 = runner.ref_run(m2, f)
+                    if r1 == "ok" and r2 == "ok":
+                        ro1, ro2 = mask_nd(ro1), mask_nd(ro2)
+                    if r1 == "fail" and 0 in b.values() and not any(w in str(ro1) for w in ("NotImplemented", "not implemented", "No implementation", "RuntimeImplementationError")):
+                        # second witness on "the original accepts this input": ORT's CPU kernels skip their argument
+                        # checks on empty tensors (Concat ignores an empty operand whose other dims mismatch and leaves
+                        # the slot uninitialised; Gather with an out-of-range index on an empty axis returns an empty
+                        # result), so with a size-0 binding "ORT ran" does not show that the model is defined here.
+                        # When onnx.reference rejects the ORIGINAL under such a binding the binding is discarded.
+                        hit("binding_discarded_reference_rejects_original")
+                        continue
                     if r1 == "ok" and r2 == "ok" and compare.compare_outputs(ro1, ro2, scale=scale) is None and \
                             (compare.compare_outputs(o1, ro1, scale=scale * 4, check_dtype=False) is not None
                              or (kind == "value" and optcommon.has_f16(m))):
@@ -166,7 +196,7 @@ def run_case(spec):
 
                 def passes(x, f=f, o1=o1):
                     st, oo = runner.ort_run(x, f)
-                    return st == "ok" and compare.compare_outputs(o1, oo, scale=scale) is None
+                    return st == "ok" and compare.compare_outputs(o1, mask_nd(oo), scale=scale) is None
 
                 culprit = optcommon.attribute(m, o, passes, fired, known)
                 key = c03core._key(culprit, kind)
